@@ -84,7 +84,7 @@ func (t *verifRT) RoundTrip(req *http.Request) (*http.Response, error) {
 	case 3:
 		if i > 0 {
 			// connection cut mid-body
-			return &http.Response{StatusCode: 200, Header: http.Header{}, Body: &verifBody{content: verifString(name + ".body"), err: errors.New("unexpected EOF (connection cut)")}}, nil
+			return &http.Response{StatusCode: 200, Header: http.Header{}, Body: &verifBody{content: verifString(name + ".body"), err: io.ErrUnexpectedEOF /* what net/http reports for a body shorter than announced */}}, nil
 		}
 		return &http.Response{StatusCode: 404, Header: http.Header{}, Body: &verifBody{content: verifString(name + ".errbody")}}, nil
 	}
